@@ -2,7 +2,7 @@
 # usage: mutant.sh <name> <check-id> [tier]   (reads a sed/patch script on stdin)
 # Applies a deliberate change to a scratch worktree of /repo (outside /repo and /verif),
 # runs one check against it via VERIF_REPO, prints the verdict, removes the worktree.
-# stdin: either a unified diff (starts with 'diff' or '---') or lines "FILE<TAB>PYTHON-REPLACE-OLD<TAB>NEW".
+# stdin: either a unified diff (starts with 'diff' or '---') or lines "FILE@@OLD@@NEW (\\t, \\n escapes)".
 set -u
 name=$1; id=$2; tier=${3:-quick}
 wt=$(mktemp -d /tmp/grip-mut-XXXXXX)
@@ -17,7 +17,7 @@ wt=sys.argv[1]
 for ln in open(os.path.join(wt,'.mut.in')):
     ln=ln.rstrip('\n')
     if not ln.strip(): continue
-    f,old,new=ln.split('\t')
+    f,old,new=ln.split('@@')
     old=old.encode().decode('unicode_escape'); new=new.encode().decode('unicode_escape')
     p=os.path.join(wt,f); s=open(p).read()
     if old not in s: print("MUTATION SITE NOT FOUND:",f,repr(old)); sys.exit(1)
